@@ -217,6 +217,19 @@ PROPS['C10'] = {
 PROPS['C09']['units'].append({'template': 'limits.rs', 'rlimit': 30, 'items': [r'^datalog::World::run_with_limits$', r'^token::authorizer::Authorizer::'],
                               'exclude_obligations': [r'ok_facts_initial', r'facts_budget']})   # budget semantics belong to C10, not to panic-freedom
 
+PROPS['C19'] = {
+    'units': [{'template': 'capi.rs', 'rlimit': 30, 'items': [r'^biscuit-capi::lib::']}],
+    'proved': 'for key_pair_new, key_pair_public, key_pair_serialize, key_pair_deserialize, public_key_deserialize, biscuit_serialized_size, biscuit_serialize, biscuit_sealed_size, '
+              'biscuit_serialize_sealed, biscuit_block_count: every copy_from_slice into a caller buffer has equal source and destination lengths, the number of bytes written is the number announced by the '
+              'matching size query (sealed: the size of the sealed token), seeds of length != 32 are refused, a null handle returns through the error channel without being dereferenced, and no unwrap / index / '
+              'arithmetic side condition can fail.',
+    'not_covered': ['"returns the same result as the Rust operation" for authorization outcomes and error details (needs the engine)', 'the builder / authorizer entry points working on C strings (CStr, to_str: str reasoning)',
+                    'validity of the caller-supplied pointers themselves (the property assumes valid handles and buffers of the reported size; rewrite R9)'],
+    'assumptions': ['Rust API contracts in specs/capi.rs: PrivateKey::to_bytes is 32 bytes, PublicKey::to_bytes is 32 (ed25519) / 33 (secp256r1) bytes, Biscuit::to_vec().len() == serialized_size() for the same token '
+                    '(each proved or assumed in unit chain); seal() returns a token whose size is unrelated to the unsealed one', 'update_last_error returns', 'rewrite R9: from_raw_parts[_mut](p, n) is a slice of length n'],
+    'technique': 'contract-based deductive verification (Verus on the mechanically extracted extern "C" functions, raw-pointer slices through rewrite R9, Z3)',
+}
+
 # obligation pattern -> concrete witness search on the real crate (replay/src/main.rs)
 WITNESS = {
     r'token::(unverified::UnverifiedBiscuit|Biscuit)::block::call-pre': 'tools/replay.sh block_index',
@@ -225,6 +238,8 @@ WITNESS = {
     r'datalog::World::run_with_limits::loop0\.index': 'tools/replay.sh iterations_zero_budget',
     r'datalog::World::run_with_limits::loop0\.ok_facts_initial': 'tools/replay.sh facts_over_budget_at_start',
     r'Authorizer::authorize::arith': 'tools/replay.sh snapshot_iteration_underflow',
+    r'biscuit-capi::lib::public_key_serialize::call-pre': 'tools/replay.sh capi_public_key_serialize_secp256r1',
+    r'biscuit-capi::lib::biscuit_(serialize_sealed|sealed_size)::': 'tools/replay.sh capi_serialize_sealed',
     r'datalog::contains_v3_3_(term|op)::': 'tools/replay.sh schema_version_features',
     r'datalog::SchemaVersion::check_compatibility::': 'tools/replay.sh underdeclared_block_accepted',
 }
@@ -236,6 +251,5 @@ NOT_APPLICABLE = {
     'C13': 'snapshot()/from_snapshot() are chains of iter().map(closure).collect::<Result<..>>() over prost messages with symbol re-interning: outside Verus subset, Kani out of budget (DESIGN.md 5/C13)',
     'C14': 'printing is fmt::Display/format! (macro-generated), parsing is nom combinators (closures returning closures): there is no function on either side to which a contract can be attached (DESIGN.md 5/C14)',
     'C18': 'the macro path is ToTokens implementations emitting token streams inside a proc-macro crate: code behind macros, executed by the compiler; no contract can state what Rust expression a token stream denotes (DESIGN.md 5/C18)',
-    'C19': 'check not built yet in this revision (planned: Kani on the C API size/buffer obligations, DESIGN.md 5/C19)',
     'C20': 'substitution/validation are drain().map(closure).collect() over HashMap<String,_>/BTree collections: structural induction over code neither back end accepts (DESIGN.md 5/C20)',
 }
